@@ -29,6 +29,28 @@ def put(doc, tag, body):
     return doc[:i] + "\n" + body.strip() + "\n" + doc[j:]
 
 
+import importlib.util
+import json
+spec = importlib.util.spec_from_file_location("mkm", os.path.join(HERE, "tools", "mkmanifest.py"))
+# read the CHECKS table without executing the generator part
+src = open(os.path.join(HERE, "tools", "mkmanifest.py")).read()
+ns = {}
+exec(src[:src.index("NA = {}")], {"__file__": os.path.join(HERE, "tools", "mkmanifest.py"), "json": json, "os": os}, ns)
+CHECKS = ns["CHECKS"]
+for cid in sorted(set(re.findall(r"BEGIN:ASBUILT (C\d\d)", d))):
+    c = CHECKS.get(cid)
+    if not c:
+        body = "**As built:** not registered (see `not_applicable` in MANIFEST.json)."
+    else:
+        body = "**As built** (engine `%s`): %s\n\n*Assumed / not covered:* %s" % (c["engine"], c["text"], c["note"])
+        ev = os.path.join(HERE, "evidence", cid + ".json")
+        if os.path.exists(ev):
+            e = json.load(open(ev))
+            cv = e["coverage"]
+            body += ("\n\n*Last run in /verif (%s tier):* states=%d, transitions=%d, executions=%d, exhaustive=%s, wall=%.0fs (wall depends on machine load)."
+                     % (e["tier"], cv.get("states", 0), cv.get("transitions", 0), cv.get("traces_validated_against_impl", 0), cv.get("exhaustive"), e["wall_s"]))
+    d = put(d, "ASBUILT " + cid, body)
+
 d = put(d, "FINDINGS", findings)
 d = put(d, "SEEDS", seeds)
 open(os.path.join(HERE, "DESIGN.md"), "w").write(d)
